@@ -12,7 +12,7 @@ import re
 
 import vlib
 
-PROPS = ['Rangers.Props.C12Facts', 'Rangers.Props.C12', 'Rangers.Props.C12B', 'Rangers.Props.C12C', 'Rangers.Props.C12D']
+PROPS = ['Rangers.Props.C12Facts', 'Rangers.Props.C12', 'Rangers.Props.C12B', 'Rangers.Props.C12C', 'Rangers.Props.C12D', 'Rangers.Props.C12E']
 DRIVERS = ['C12']
 META = dict(
     level='proof',
